@@ -2,6 +2,7 @@ package label
 
 import (
 	"fmt"
+	"slices"
 	"sort"
 	"strings"
 )
@@ -104,6 +105,7 @@ func (t TargetLabel) IsTest() bool {
 	return strings.HasSuffix(t.Name, "test")
 }
 
+// PrintSorted prints the given labels in sorted order, each label once.
 func PrintSorted(labels []TargetLabel) {
 	var result []string
 	for _, label := range labels {
@@ -111,7 +113,7 @@ func PrintSorted(labels []TargetLabel) {
 	}
 
 	sort.Strings(result)
-	for _, s := range result {
+	for _, s := range slices.Compact(result) {
 		fmt.Println(s)
 	}
 }
